@@ -197,6 +197,10 @@ def values_equal(polar_val, ref, tol_digits=40):
     pv = sympy.Rational(polar_val.numerator, polar_val.denominator) if isinstance(polar_val, Fraction) else polar_val
     if isinstance(ref, Fraction):
         rv = sympy.Rational(ref.numerator, ref.denominator)
+    elif type(ref).__module__.startswith("mpmath"):
+        import mpmath
+
+        rv = sympy.Float(mpmath.nstr(mpmath.re(ref), 50), 60) + sympy.I * sympy.Float(mpmath.nstr(mpmath.im(ref), 50), 60)
     else:
         rv = sympy.Float(str(ref), 60)
     diff = sympy.N(pv - rv, 60)
